@@ -84,6 +84,12 @@ func c18Payloads(n int) []string {
 		`"/><img src=x ` + c + `=1>`,
 		`--><` + c + `>`,
 		`javascript:` + c + `()`,
+		// the same breakouts next to a malformed query pair (';' separator, stray '%', bad escape): a query that a
+		// normaliser cannot parse is the one it is tempted to pass through verbatim
+		`"><` + c + `>&a;b`,
+		`"><` + c + ` ` + c + `=1>%zz`,
+		`%"><` + c + `>`,
+		`x;y="><` + c + `>`,
 	}
 }
 
@@ -98,7 +104,7 @@ type c18Case struct {
 }
 
 func TestVerifC18(t *testing.T) {
-	rep := newVerifReport("C18", "canary payloads (quote/angle-bracket/attribute breakouts, entity- and URL-encoded, comment and title breakouts) in every request-controlled field (query, form, path suffix) of every registered route, without credential / with a password session / with an admin hardware-token session, Accept: text/html, plus stored fields (user names accepted by the password backend, token names); each HTML response parsed with an HTML5 tree builder: no element or attribute named after the canary, no canary inside script/style/event-handler/javascript: contexts; class = (route, field, credential, status class, verdict)")
+	rep := newVerifReport("C18", "canary payloads (quote/angle-bracket/attribute breakouts, entity- and URL-encoded, comment and title breakouts, and breakouts next to malformed query pairs) in every request-controlled field (query, form, path suffix) of every registered route, without credential / with a password session / with an admin hardware-token session, Accept: text/html, plus stored fields (user names accepted by the password backend, token names); each HTML response parsed with an HTML5 tree builder: no element or attribute named after the canary, no canary inside script/style/event-handler/javascript: contexts; class = (route, field, credential, status class, verdict)")
 	defer rep.Finish()
 	rng := verifRand("c18")
 	_ = rng
@@ -150,7 +156,7 @@ func TestVerifC18(t *testing.T) {
 	}
 	nPayload := 4
 	if verifThorough() {
-		nPayload = 14
+		nPayload = len(c18Payloads(0))
 	}
 	for _, rt := range env.Routes {
 		path := rt.Pattern
@@ -161,8 +167,15 @@ func TestVerifC18(t *testing.T) {
 			for fi, field := range fields {
 				canary++
 				pls := c18Payloads(canary)
-				for pi := 0; pi < nPayload; pi++ {
+				np := nPayload
+				if field == "login_destination" {
+					np = 2 * len(pls) // every payload, bare and as the query of a local destination
+				}
+				for pi := 0; pi < np; pi++ {
 					pl := pls[(pi+fi)%len(pls)]
+					if pi >= len(pls) {
+						pl = "/x?a=" + pl
+					}
 					for _, method := range []string{"GET", "POST"} {
 						q := verifReq{Method: method, Header: map[string]string{"Accept": "text/html"}, Cookies: cr.ck}
 						base := url.Values{}
@@ -186,7 +199,7 @@ func TestVerifC18(t *testing.T) {
 			}
 			// raw (unencoded) query and path suffix
 			canary++
-			for _, pl := range c18Payloads(canary)[:nPayload] {
+			for _, pl := range c18Payloads(canary) {
 				raw := strings.NewReplacer(" ", "%20", "\t", "%09", "#", "%23").Replace(pl)
 				q := verifReq{Method: "GET", Path: path + "?x=" + raw, Header: map[string]string{"Accept": "text/html"}, Cookies: cr.ck}
 				probe(path, "GET", "<raw-query>", pl, cr.name, q)
